@@ -15,6 +15,7 @@ package tsdb_test
 
 import (
 	"context"
+	jsonStd "encoding/json"
 	"fmt"
 	"math"
 	"math/rand"
@@ -306,9 +307,13 @@ func c16SameSet(a, b map[string]bool) bool {
 // ---------------------------------------------------------------- the DB under test
 
 type c16World struct {
-	conc   *c16Conc
-	db     *tsdb.DB
-	dir    string
+	conc     *c16Conc
+	db       *tsdb.DB
+	dir      string
+	opts     *tsdb.Options
+	phase    int                // container that is the head
+	points   map[string][]int64 // id -> time points appended so far
+	reopenMu sync.Mutex
 	series map[string]map[string]string // id -> abstract label map
 	keyID  map[string]string            // concrete labels string -> id
 	ranges [][]int64
@@ -326,6 +331,9 @@ func c16Open(conc *c16Conc, sharding bool) (*c16World, error) {
 	opts.MinBlockDuration = 10 * c16W
 	opts.MaxBlockDuration = 10 * c16W
 	opts.WALSegmentSize = -1 // no WAL: the property is about the index and the queriers
+	if sharding {
+		opts.WALSegmentSize = 0 // C18 reopens the DB: the head has to come back from the WAL
+	}
 	opts.EnableSharding = sharding
 	db, err := tsdb.Open(dir, nil, nil, opts, nil)
 	if err != nil {
@@ -333,8 +341,22 @@ func c16Open(conc *c16Conc, sharding bool) (*c16World, error) {
 		return nil, err
 	}
 	db.DisableCompactions()
-	return &c16World{conc: conc, db: db, dir: dir, series: map[string]map[string]string{}, keyID: map[string]string{},
+	return &c16World{conc: conc, db: db, dir: dir, opts: opts, phase: 1, points: map[string][]int64{},
+		series: map[string]map[string]string{}, keyID: map[string]string{},
 		rnd: rand.New(rand.NewSource(conc.seed))}, nil
+}
+
+func (w *c16World) reopen() error {
+	if err := w.db.Close(); err != nil {
+		return err
+	}
+	db, err := tsdb.Open(w.dir, nil, nil, w.opts, nil)
+	if err != nil {
+		return err
+	}
+	db.DisableCompactions()
+	w.db = db
+	return nil
 }
 
 func (w *c16World) close() {
@@ -372,6 +394,9 @@ func (w *c16World) appendAll(samples []c16Sample) error {
 		w.rnd.Shuffle(j-i, func(a, b int) { samples[i+a], samples[i+b] = samples[i+b], samples[i+a] })
 		i = j
 	}
+	for _, s := range samples {
+		w.points[s.id] = append(w.points[s.id], s.t)
+	}
 	app := w.db.Appender(context.Background())
 	for _, s := range samples {
 		for _, ls := range w.conc.labelsOf(w.series[s.id]) {
@@ -385,6 +410,7 @@ func (w *c16World) appendAll(samples []c16Sample) error {
 }
 
 func (w *c16World) cut(cont int) error {
+	w.phase = cont + 1
 	lo, hi := w.conc.contRange(cont)
 	if w.db.Head().NumSeries() == 0 {
 		return nil
@@ -812,6 +838,10 @@ func c16Run(t *testing.T, sharding bool) {
 	if par > 12 {
 		par = 12
 	}
+	qpar := par
+	if sharding {
+		qpar = 1 // a Shard step may reopen the DB: no concurrent queries on it
+	}
 	// big groups one after the other with parallel queries, small groups in parallel
 	var small []int
 	for gi, g := range groups {
@@ -824,7 +854,7 @@ func c16Run(t *testing.T, sharding bool) {
 			continue
 		}
 		for k := 0; k < nconc; k++ {
-			if err := c16RunGroup(g, gi, seed+int64((gi+k)%4), st, par, sharding); err != nil {
+			if err := c16RunGroup(g, gi, seed+int64((gi+k)%4), st, qpar, sharding); err != nil {
 				verifh.Infra(err.Error())
 				t.Fatal(err)
 			}
@@ -868,11 +898,177 @@ func c16Run(t *testing.T, sharding bool) {
 
 func TestVerifC16Replay(t *testing.T) { c16Run(t, false) }
 
-// shardQuery (C18): Select with SelectHints.ShardIndex/ShardCount for every shard of the count n.
-// The spec predicts the algebra only (the shards are pairwise disjoint, their union is the
-// unsharded answer, membership is decided by a function H of the label set alone); H itself is
-// uninterpreted, so the observed shard of every series is recorded and validated afterwards
-// against Trace_Shard.tla together with labels.StableHash of the three build variants.
-func (w *c16World) shardQuery(q c16Step, qi int, st *c16Stats) *c16Fail {
-	return &c16Fail{"infra", "Shard steps are replayed by the C18 check only"}
+// ---------------------------------------------------------------- C18: sharded Select
+
+// c18Trace collects the events validated against specs/postings/Trace_Shard.tla:
+// the shard every series was observed in, and labels.StableHash of its label set in this build.
+type c18Trace struct {
+	mu     sync.Mutex
+	tr     *verifh.Tracer
+	lsets  map[string]labels.Labels
+	hashed map[string]bool
 }
+
+var c18 *c18Trace
+
+func (c *c18Trace) shard(ls labels.Labels, n, i uint64, src string) {
+	c.mu.Lock()
+	defer c.mu.Unlock()
+	k := ls.String()
+	if !c.hashed[k] {
+		c.hashed[k] = true
+		c.lsets[k] = ls.Copy()
+		h := labels.StableHash(ls)
+		c.tr.Event("hash", map[string]any{"ls": k, "tag": labels.ImplementationName, "p2": h >> 44, "p1": (h >> 22) & (1<<22 - 1), "p0": h & (1<<22 - 1)})
+	}
+	c.tr.Event("shard", map[string]any{"ls": k, "n": n, "i": i, "src": src})
+}
+
+// srcOf says where the samples of an abstract series live (head, block or both) given the head container.
+func (w *c16World) srcOf(id string, phase int) string {
+	head, block := false, false
+	for _, p := range w.points[id] {
+		if int((p-1)/2)+1 == phase {
+			head = true
+		} else {
+			block = true
+		}
+	}
+	switch {
+	case head && block:
+		return "both"
+	case head:
+		return "head"
+	}
+	return "block"
+}
+
+// shardQuery (C18): Select with SelectHints.ShardIndex/ShardCount for every shard of the count n.
+// Strict: every shard answer is part of the unsharded answer, the shards are pairwise disjoint
+// and their union is the unsharded answer (which is bounded like any Select). The shard each
+// series falls into is recorded for Trace_Shard.tla (one hash function for all of them).
+func (w *c16World) shardQuery(q c16Step, qi int, st *c16Stats) *c16Fail {
+	ctx := context.Background()
+	mint, maxt := w.conc.queryRange(1, 6, qi%4)
+	run := func(src string) *c16Fail {
+		qr, err := w.db.Querier(mint, maxt)
+		if err != nil {
+			return &c16Fail{"infra", "Querier: " + err.Error()}
+		}
+		defer qr.Close()
+		sel := func(hints *storage.SelectHints) (map[string]labels.Labels, *c16Fail) {
+			ms, err := w.conc.matchers(q.Ms)
+			if err != nil {
+				return nil, &c16Fail{"infra", err.Error()}
+			}
+			ss := qr.Select(ctx, qi%2 == 0, hints, ms...)
+			res := map[string]labels.Labels{}
+			for ss.Next() {
+				ls := ss.At().Labels()
+				if _, dup := res[ls.String()]; dup {
+					return nil, &c16Fail{"shard-dup", "Select returned " + ls.String() + " twice"}
+				}
+				res[ls.String()] = ls.Copy()
+			}
+			if err := ss.Err(); err != nil {
+				return nil, &c16Fail{"shard-error", "Select failed: " + err.Error()}
+			}
+			return res, nil
+		}
+		all, f := sel(&storage.SelectHints{Start: mint, End: maxt})
+		if f != nil {
+			return f
+		}
+		may, must := w.expandIDs(q.May), w.expandIDs(q.Must[0])
+		for k := range all {
+			if !may[k] {
+				return &c16Fail{"select-extra", "unsharded Select returned " + k + " which does not satisfy the matchers"}
+			}
+		}
+		for k := range must {
+			if _, ok := all[k]; !ok {
+				return &c16Fail{"select-missing", "unsharded Select misses " + k}
+			}
+		}
+		seen := map[string]uint64{}
+		for i := uint64(0); i < q.N; i++ {
+			part, f := sel(&storage.SelectHints{Start: mint, End: maxt, ShardIndex: i, ShardCount: q.N})
+			if f != nil {
+				return f
+			}
+			st.mu.Lock()
+			st.calls++
+			st.mu.Unlock()
+			for k, ls := range part {
+				if _, ok := all[k]; !ok {
+					return &c16Fail{"shard-extra", fmt.Sprintf("shard %d of %d returned %s which the unsharded Select does not return", i, q.N, k)}
+				}
+				if j, dup := seen[k]; dup {
+					return &c16Fail{"shard-overlap", fmt.Sprintf("%s is in shard %d and in shard %d of %d", k, j, i, q.N)}
+				}
+				seen[k] = i
+				s := src
+				if s == "" {
+					s = w.srcOf(w.keyID[k], w.phase)
+				}
+				c18.shard(ls, q.N, i, s)
+			}
+		}
+		for k := range all {
+			if _, ok := seen[k]; !ok {
+				return &c16Fail{"shard-missing", fmt.Sprintf("%s is returned by the unsharded Select but by none of the %d shards", k, q.N)}
+			}
+		}
+		return nil
+	}
+	if f := run(""); f != nil {
+		return f
+	}
+	st.mu.Lock()
+	st.queries++
+	st.mu.Unlock()
+	// across a restart: reopen the DB (the head is rebuilt from the WAL) for some of the queries
+	if qi%7 == 0 && q.N > 1 {
+		w.reopenMu.Lock()
+		defer w.reopenMu.Unlock()
+		if err := w.reopen(); err != nil {
+			return &c16Fail{"infra", "reopen: " + err.Error()}
+		}
+		if f := run("reopen"); f != nil {
+			f.msg = "after reopening the DB: " + f.msg
+			return f
+		}
+	}
+	return nil
+}
+
+func TestVerifC18Replay(t *testing.T) {
+	tr, err := verifh.NewTracer(os.Getenv("VERIF_C18_TRACE"))
+	if err != nil {
+		verifh.Infra(err.Error())
+		t.Fatal(err)
+	}
+	c18 = &c18Trace{tr: tr, lsets: map[string]labels.Labels{}, hashed: map[string]bool{}}
+	c16Run(t, true)
+	tr.Close()
+	// the label sets seen, for the StableHash runs under the other build tags
+	f, err := os.Create(os.Getenv("VERIF_C18_LSETS"))
+	if err != nil {
+		verifh.Infra(err.Error())
+		t.Fatal(err)
+	}
+	defer f.Close()
+	keys := make([]string, 0, len(c18.lsets))
+	for k := range c18.lsets {
+		keys = append(keys, k)
+	}
+	sort.Strings(keys)
+	for _, k := range keys {
+		var pairs []string
+		c18.lsets[k].Range(func(l labels.Label) { pairs = append(pairs, l.Name, l.Value) })
+		b, _ := jsonMarshal(map[string]any{"ls": k, "pairs": pairs})
+		f.Write(append(b, '\n'))
+	}
+}
+
+func jsonMarshal(v any) ([]byte, error) { return jsonStd.Marshal(v) }
